@@ -33,7 +33,7 @@ type census struct {
 
 func special() string {
 	pk := strings.Repeat("ab", 32)
-	return fmt.Sprintf("%d:param:maxbytes=10000000,%d:val:%s:3,%d:val:%s:0,%d:param:maxgas=5000000", h0+1, h0+1, pk, h0+2, pk, h0+2)
+	return fmt.Sprintf("%d:param:maxbytes=10000000,%d:val:%s:3,%d:val:%s:0,%d:param:maxgas=5000000,%d:param:appversion=1", h0+1, h0+1, pk, h0+2, pk, h0+2, h0+1)
 }
 
 func takeCensus(r *crash.Runner, template string) (census, error) {
